@@ -731,9 +731,26 @@ func (t tmpl) url(vals []string) string {
 	return strings.Join(out, "/")
 }
 
-func genCase(t *rapid.T, maxRecs int) kase {
+type genOpts struct {
+	thresholds []int
+	maxRecs    int
+	maxItems   int
+	burstOneIn int // a stream item is a burst of consecutive ids with probability 1/burstOneIn
+	burstMin   func(threshold int) int
+}
+
+var smallTrees = genOpts{thresholds: []int{2, 2, 2, 3, 3, 5, productionThreshold}, maxRecs: 200, maxItems: 40, burstOneIn: 4,
+	burstMin: func(int) int { return 2 }}
+
+// productionTrees: only the plugin's real threshold, streams made of few long
+// bursts so that the 50-way split is crossed at several depths.
+var productionTrees = genOpts{thresholds: []int{productionThreshold}, maxRecs: 400, maxItems: 12, burstOneIn: 2,
+	burstMin: func(th int) int { return th - 1 }}
+
+func genCase(t *rapid.T, g genOpts) kase {
 	c := kase{}
-	c.Threshold = rapid.SampledFrom([]int{2, 2, 2, 3, 3, 5, productionThreshold}).Draw(t, "threshold")
+	maxRecs := g.maxRecs
+	c.Threshold = rapid.SampledFrom(g.thresholds).Draw(t, "threshold")
 	nT := rapid.IntRange(1, 4).Draw(t, "ntemplates")
 	tmpls := make([]tmpl, nT)
 	for i := range tmpls {
@@ -765,7 +782,7 @@ func genCase(t *rapid.T, maxRecs int) kase {
 	}
 	valueOf := func(n int) string { return fmt.Sprintf("%d", n) }
 	span := c.Threshold + 3
-	nItems := rapid.IntRange(1, 40).Draw(t, "nitems")
+	nItems := rapid.IntRange(1, g.maxItems).Draw(t, "nitems")
 	for it := 0; it < nItems && len(c.Recs) < maxRecs; it++ {
 		tp := tmpls[rapid.IntRange(0, nT-1).Draw(t, "tmpl")]
 		ns := tp.slots()
@@ -779,8 +796,8 @@ func genCase(t *rapid.T, maxRecs int) kase {
 		}
 		burst := 1
 		vary := 0
-		if ns > 0 && rapid.IntRange(0, 3).Draw(t, "isburst") == 0 {
-			burst = rapid.IntRange(2, c.Threshold+2).Draw(t, "burst")
+		if ns > 0 && rapid.IntRange(0, g.burstOneIn-1).Draw(t, "isburst") == 0 {
+			burst = rapid.IntRange(g.burstMin(c.Threshold), c.Threshold+2).Draw(t, "burst")
 			vary = rapid.IntRange(0, ns-1).Draw(t, "vary")
 		}
 		for b := 0; b < burst && len(c.Recs) < maxRecs; b++ {
@@ -827,30 +844,242 @@ func genCase(t *rapid.T, maxRecs int) kase {
 	return c
 }
 
-// ---- the property -----------------------------------------------------------
+// ---- classifier side: the attribution model "as implemented" -----------------
+//
+// Used only to attribute a batch-invariance failure to a listed known finding,
+// never to accept a result. It follows every record individually through the
+// procedure of GetUpdatedAggregations: per batch (1) insert the batch's URLs,
+// (2) if the tree reported a convergence, re-normalise the keys assigned so far
+// with the tree as it is now, (3) normalise the new records — once for the
+// endpoint table, once more for the consumer tables — and finally folds the raw
+// records under the key each one ended up with (exact arithmetic).
 
-type outcome struct {
-	single, partA, partB discovery.Agg
-	info1, infoA, infoB, infoS runInfo
-	stateful             *discovery.Agg
-	restarted            bool
+type model struct {
+	agg    discovery.Agg
+	silent int
+	ek, ck map[int]string // record index → endpoint key URL in the endpoint table / in its consumer's table
 }
 
-// evaluate runs the case four ways and applies the oracles; the returned error
-// is the property violation (nil = held).
-func evaluate(c kase, dir string) (outcome, error, error) {
-	o := outcome{}
-	var err error
-	var info runInfo
-	if o.single, o.info1, err = runPure(c, nil); err != nil {
-		return o, nil, err
+func interceptorOf(r rec) common.Interceptor {
+	p := strings.Split(r.I, "/")
+	if len(p) == 2 {
+		return common.Interceptor{Type: p[0], Version: p[1]}
 	}
-	_ = info
+	return common.Interceptor{Type: "unknown", Version: "unknown"}
+}
+
+func foldRecords(recs []rec, idx []int, key map[int]string) map[sd.Endpoint]sd.EndpointAgg {
+	type acc struct {
+		n       int
+		st      map[int]sd.Count
+		mn, mx  int64
+		sd, std float64
+	}
+	accs := map[sd.Endpoint]*acc{}
+	for _, i := range idx {
+		r := recs[i]
+		k := sd.Endpoint{Method: r.M, URL: key[i]}
+		a := accs[k]
+		if a == nil {
+			a = &acc{st: map[int]sd.Count{}, mn: math.MaxInt64, mx: math.MinInt64}
+			accs[k] = a
+		}
+		a.n++
+		a.st[r.S]++
+		a.mn, a.mx = min(a.mn, r.T), max(a.mx, r.T)
+		a.sd += float64(r.D)
+		a.std += float64(r.TD)
+	}
+	out := map[sd.Endpoint]sd.EndpointAgg{}
+	for k, a := range accs {
+		out[k] = sd.EndpointAgg{MinTime: a.mn, MaxTime: a.mx, Count: sd.Count(a.n), StatusCodes: a.st,
+			AverageDuration: float32(a.sd / float64(a.n)), AverageTotalDuration: float32(a.std / float64(a.n))}
+	}
+	return out
+}
+
+func modelRun(c kase, cuts []int) (model, error) {
+	tree, err := buildTree(c)
+	if err != nil {
+		return model{}, err
+	}
+	ek, ck := map[int]string{}, map[int]string{}
+	seen := []int{}
+	rekey := func(m map[int]string) {
+		distinct := map[string]bool{}
+		for _, i := range seen {
+			distinct[m[i]] = true
+		}
+		urls := make([]string, 0, len(distinct))
+		for u := range distinct {
+			urls = append(urls, u)
+		}
+		sort.Strings(urls)
+		to := map[string]string{}
+		for _, u := range urls {
+			to[u] = common.NormalizeURL(tree, u)
+		}
+		for _, i := range seen {
+			m[i] = to[m[i]]
+		}
+	}
+	for _, b := range batches(len(c.Recs), cuts) {
+		if b[0] == b[1] {
+			continue
+		}
+		idx := []int{}
+		for i := b[0]; i < b[1]; i++ {
+			if !c.Recs[i].In {
+				idx = append(idx, i)
+			}
+		}
+		conv := false
+		for _, i := range idx {
+			f, err := tree.InsertWithConvergenceIndication(c.Recs[i].U, &common.EmptyStruct{})
+			if err != nil {
+				return model{}, err
+			}
+			conv = conv || f
+		}
+		if conv {
+			rekey(ek)
+			rekey(ck)
+		}
+		for _, i := range idx {
+			ek[i] = common.NormalizeURL(tree, c.Recs[i].U)
+		}
+		tags := map[string][]int{}
+		names := []string{}
+		for _, i := range idx {
+			tg := consumerOf(c.Recs[i])
+			if _, ok := tags[tg]; !ok {
+				names = append(names, tg)
+			}
+			tags[tg] = append(tags[tg], i)
+		}
+		sort.Strings(names)
+		for _, tg := range names {
+			for _, i := range tags[tg] {
+				ck[i] = common.NormalizeURL(tree, c.Recs[i].U)
+			}
+		}
+		seen = append(seen, idx...)
+	}
+	m := model{silent: tree.silent, ek: ek, ck: ck}
+	m.agg.Endpoints = foldRecords(c.Recs, seen, ek)
+	m.agg.Consumers = map[string]sd.EndpointMapping{}
+	m.agg.Interceptors = map[common.Interceptor]discovery.InterceptorAgg{}
+	byTag := map[string][]int{}
+	for _, i := range seen {
+		byTag[consumerOf(c.Recs[i])] = append(byTag[consumerOf(c.Recs[i])], i)
+		ic := interceptorOf(c.Recs[i])
+		if cur, ok := m.agg.Interceptors[ic]; !ok || c.Recs[i].T > cur.Timestamp {
+			m.agg.Interceptors[ic] = discovery.InterceptorAgg{Timestamp: c.Recs[i].T}
+		}
+	}
+	for tg, idx := range byTag {
+		m.agg.Consumers[tg] = foldRecords(c.Recs, idx, ck)
+	}
+	return m, nil
+}
+
+func sortedKeys(a map[sd.Endpoint]sd.EndpointAgg) []sd.Endpoint {
+	out := make([]sd.Endpoint, 0, len(a))
+	for k := range a {
+		out = append(out, k)
+	}
+	sort.Slice(out, func(i, j int) bool { return out[i].Method+" "+out[i].URL < out[j].Method+" "+out[j].URL })
+	return out
+}
+
+// isSilentConvergence (C15-F1): the URL tree converged inside NormalizeURL — whose
+// Insert drops the convergence indication — so ConvergeAggregation was never
+// told to re-key; isMergedConstantBesideParameter (C15-F2): no such event, the
+// runs differ although every convergence was reported. In both cases the
+// implementation must agree exactly with the as-implemented attribution model
+// for each of the two batchings and the results must be the same up to
+// redistribution between overlapping keys.
+func classifyBatchDependence(c kase, cutsX, cutsY []int, x, y discovery.Agg, ix, iy runInfo) string {
+	if isSilentConvergence(ix, iy) {
+		// From that moment the result also depends on Go's map iteration order
+		// (re-keying and the per-consumer pass walk maps while inserting into the
+		// tree), so no deterministic model can reproduce it; the spy's direct
+		// observation of the unreported convergence is the predicate. Conservation
+		// is checked unconditionally and is not waived.
+		return "C15-F1"
+	}
+	mx, err := modelRun(c, cutsX)
+	if err != nil || mx.silent > 0 || diffAgg(x, mx.agg, false) != "" {
+		return ""
+	}
+	my, err := modelRun(c, cutsY)
+	if err != nil || my.silent > 0 || diffAgg(y, my.agg, false) != "" {
+		return ""
+	}
+	// structural predicate: a re-keying took place, and every record the two
+	// batchings file differently is filed under keys that both cover its URL
+	if ix.rekeys+iy.rekeys == 0 {
+		return ""
+	}
+	moved := 0
+	for i, r := range c.Recs {
+		if r.In {
+			continue
+		}
+		for _, pair := range [][2]string{{mx.ek[i], my.ek[i]}, {mx.ck[i], my.ck[i]}} {
+			if pair[0] == pair[1] {
+				continue
+			}
+			moved++
+			rp := parts(r.U)
+			if !covers(parts(pair[0]), rp) || !covers(parts(pair[1]), rp) {
+				return ""
+			}
+		}
+	}
+	if moved == 0 {
+		return ""
+	}
+	return "C15-F2"
+}
+
+func isSilentConvergence(ix, iy runInfo) bool { return ix.silent+iy.silent > 0 }
+
+// ---- the property -----------------------------------------------------------
+
+type attributed struct {
+	id  string // known-finding id the classifier attributes the failure to
+	msg string
+}
+
+type outcome struct {
+	single, partA, partB       discovery.Agg
+	info1, infoA, infoB, infoS runInfo
+	stateful                   *discovery.Agg
+	restarted                  bool
+	attributed                 []attributed // failures a classifier attributes to a finding
+	violation                  error        // failure no classifier explains
+	outside                    error        // case outside the domain (tree refuses the known endpoints)
+}
+
+// evaluate runs the case four ways and applies the oracles.
+func evaluate(c kase, dir string) (o outcome) {
+	if _, err := buildTree(c); err != nil {
+		o.outside = err
+		return
+	}
+	var err error
+	if o.single, o.info1, err = runPure(c, nil); err != nil {
+		o.violation = fmt.Errorf("a batch was rejected, its records are lost: %v", err)
+		return
+	}
 	if o.partA, o.infoA, err = runPure(c, c.CutsA); err != nil {
-		return o, nil, err
+		o.violation = fmt.Errorf("a batch was rejected, its records are lost: %v", err)
+		return
 	}
 	if o.partB, o.infoB, err = runPure(c, c.CutsB); err != nil {
-		return o, nil, err
+		o.violation = fmt.Errorf("a batch was rejected, its records are lost: %v", err)
+		return
 	}
 	// (1) conservation, every run
 	for _, x := range []struct {
@@ -858,19 +1087,32 @@ func evaluate(c kase, dir string) (outcome, error, error) {
 		a    discovery.Agg
 	}{{"single batch", o.single}, {fmt.Sprintf("batches cut at %v", c.CutsA), o.partA}, {fmt.Sprintf("batches cut at %v", c.CutsB), o.partB}} {
 		if e := conservation(x.name, x.a, c.Recs, false); e != nil {
-			return o, e, nil
+			o.violation = e
+			return
 		}
 	}
 	// (2) batch invariance of the final statistics
-	if d := diffAgg(o.single, o.partA, false); d != "" {
-		return o, fmt.Errorf("final statistics depend on the batch boundaries (single batch vs cuts %v): %s", c.CutsA, d), nil
-	}
-	if d := diffAgg(o.single, o.partB, false); d != "" {
-		return o, fmt.Errorf("final statistics depend on the batch boundaries (single batch vs cuts %v): %s", c.CutsB, d), nil
+	for _, x := range []struct {
+		cuts []int
+		a    discovery.Agg
+		info runInfo
+	}{{c.CutsA, o.partA, o.infoA}, {c.CutsB, o.partB, o.infoB}} {
+		d := diffAgg(o.single, x.a, false)
+		if d == "" {
+			continue
+		}
+		msg := fmt.Sprintf("final statistics depend on the batch boundaries (single batch vs cuts %v): %s", x.cuts, d)
+		if id := classifyBatchDependence(c, nil, x.cuts, o.single, x.a, o.info1, x.info); id != "" {
+			o.attributed = append(o.attributed, attributed{id, msg})
+			continue
+		}
+		o.violation = fmt.Errorf("%s", msg)
+		return
 	}
 	// (3) persistence round trip of the conversion functions
 	if d := roundTrip(o.single); d != "" {
-		return o, fmt.Errorf("%s", d), nil
+		o.violation = fmt.Errorf("%s", d)
+		return
 	}
 	// (4) the real Run with a state file, optionally restarting between batches
 	for _, f := range c.Restart {
@@ -884,18 +1126,25 @@ func evaluate(c kase, dir string) (outcome, error, error) {
 		return nil
 	})
 	if err != nil {
-		return o, nil, err
+		o.violation = fmt.Errorf("stateful run failed, records are lost: %v", err)
+		return
 	}
 	if violation != nil {
-		return o, violation, nil
+		o.violation = violation
+		return
 	}
 	if o.infoS.restarts == 0 {
 		// no state was ever reloaded into a fresh tree: the file must show the same statistics
 		if d := diffAgg(o.partB, *o.stateful, true); d != "" {
-			return o, fmt.Errorf("state file written by Run differs from the statistics computed for the same batches: %s", d), nil
+			msg := fmt.Sprintf("state file written by Run differs from the statistics computed for the same batches: %s", d)
+			if isSilentConvergence(o.infoB, o.infoS) {
+				o.attributed = append(o.attributed, attributed{"C15-F1", msg})
+			} else {
+				o.violation = fmt.Errorf("%s", msg)
+			}
 		}
 	}
-	return o, nil, nil
+	return
 }
 
 func scratchDir(t testing.TB) string {
@@ -935,28 +1184,193 @@ func classify(r *ev.Recorder, c kase, o outcome) {
 	if o.restarted && as > 0 {
 		r.Class("restart-and-convergence")
 	}
+	if o.info1.silent+o.infoA.silent+o.infoB.silent > 0 {
+		r.Class("silent-convergence")
+	}
+	if o.infoS.silent > 0 && o.infoS.restarts > 0 {
+		r.Class("silent-convergence-in-restarted-run")
+	}
+	if c.Threshold == productionThreshold {
+		r.Class(fmt.Sprintf("threshold=50:assumed-param-depth=%d", min(as, 3)))
+		if o.infoA.rekeys+o.infoB.rekeys > 0 {
+			r.Class("threshold=50:rekey-after-convergence")
+		}
+	}
+	for _, a := range o.attributed {
+		r.Class("attributed-" + a.id)
+	}
 }
 
-func TestBatchInvariance(t *testing.T) {
+func nonTrivial(o outcome) bool {
+	return o.infoA.rekeys+o.infoB.rekeys > 0 || o.infoS.restarts > 0
+}
+
+// judge turns an outcome into pass / known finding / failure.
+func judge(t interface{ Fatalf(string, ...any) }, r *ev.Recorder, c kase, o outcome) {
+	for _, a := range o.attributed {
+		if !r.KnownFinding(a.id, func() any { return c }) {
+			t.Fatalf("%s", r.Fail(c, "%s [classifier: %s, not listed as a known finding]", a.msg, a.id))
+		}
+	}
+	if o.violation != nil {
+		t.Fatalf("%s", r.Fail(c, "%v", o.violation))
+	}
+}
+
+func TestBatchInvariance(t *testing.T)               { property(t, smallTrees) }
+func TestBatchInvarianceProductionTree(t *testing.T) { property(t, productionTrees) }
+
+func property(t *testing.T, g genOpts) {
 	r := ev.New(t, "C15")
 	dir := scratchDir(t)
 	rapid.Check(t, func(t *rapid.T) {
-		c := genCase(t, 200)
-		o, violation, infra := evaluate(c, dir)
-		if infra != nil {
-			// the tree rejected a generated known-endpoint list or a URL: outside the domain
-			t.Skipf("outside domain: %v", infra)
+		c := genCase(t, g)
+		o := evaluate(c, dir)
+		if o.outside != nil {
+			t.Skipf("outside domain: %v", o.outside)
 		}
-		if os.Getenv("C15_EXPLORE") != "" && o.info1.silent+o.infoA.silent+o.infoB.silent+o.infoS.silent > 0 {
-			t.Skip("explore: silent convergence")
+		if os.Getenv("C15_EXPLORE") != "" && len(o.attributed) > 0 {
+			t.Skip("explore")
 		}
 		r.Case()
 		classify(r, c, o)
-		if o.infoA.rekeys+o.infoB.rekeys > 0 || o.infoS.restarts > 0 {
+		if nonTrivial(o) {
 			r.NonTrivial(ev.JSON(c), func() any { return c })
 		}
-		if violation != nil {
-			t.Fatalf("%s", r.Fail(c, "%v", violation))
-		}
+		judge(t, r, c, o)
 	})
+}
+
+// TestReplay re-evaluates one case from a JSON file ($VERIF_REPLAY: either a
+// replay file written by ./check, or a bare case) and prints what every run
+// produced. Without the variable it does nothing.
+func TestReplay(t *testing.T) {
+	path := os.Getenv("VERIF_REPLAY")
+	if path == "" {
+		t.Skip("VERIF_REPLAY not set")
+	}
+	b, err := os.ReadFile(path)
+	if err != nil {
+		t.Fatalf("VERIF-INFRA: %v", err)
+	}
+	var wrapped struct {
+		Failure *struct {
+			Case *kase `json:"case"`
+		} `json:"failure"`
+	}
+	var c kase
+	if json.Unmarshal(b, &wrapped) == nil && wrapped.Failure != nil && wrapped.Failure.Case != nil {
+		c = *wrapped.Failure.Case
+	} else if err := json.Unmarshal(b, &c); err != nil {
+		t.Fatalf("VERIF-INFRA: %s is neither a replay file nor a case: %v", path, err)
+	}
+	r := ev.New(t, "C15")
+	r.Case()
+	o := evaluate(c, scratchDir(t))
+	dump := func(name string, a discovery.Agg, i runInfo) {
+		t.Logf("%s: batches=%d rekeys=%d loud=%d silent=%d", name, i.batches, i.rekeys, i.loud, i.silent)
+		for _, k := range sortedKeys(a.Endpoints) {
+			t.Logf("    %-6s %-50s %+v", k.Method, k.URL, a.Endpoints[k])
+		}
+	}
+	dump("single", o.single, o.info1)
+	dump(fmt.Sprintf("cutsA %v", c.CutsA), o.partA, o.infoA)
+	dump(fmt.Sprintf("cutsB %v", c.CutsB), o.partB, o.infoB)
+	if o.stateful != nil {
+		dump(fmt.Sprintf("stateful cutsB %v restart %v", c.CutsB, c.Restart), *o.stateful, o.infoS)
+	}
+	if m, err := modelRun(c, c.CutsA); err == nil {
+		dump("model cutsA", m.agg, runInfo{silent: m.silent})
+	}
+	for _, a := range o.attributed {
+		t.Logf("attributed to %s: %s", a.id, a.msg)
+	}
+	judge(t, r, c, o)
+}
+
+// ---- witnesses of the known findings ---------------------------------------
+
+func get(url string, i int) rec {
+	return rec{M: "GET", U: url, S: 200, D: 10 + i, TD: 12 + i, T: 1_700_000_000_000 + int64(i)*1500, I: "lunar-aiohttp-interceptor/2.0.2"}
+}
+
+func witnessCase(threshold int, cut int, urls []string) kase {
+	c := kase{Threshold: threshold, CutsA: []int{cut}, CutsB: []int{}}
+	for i, u := range urls {
+		c.Recs = append(c.Recs, get(u, i))
+	}
+	return c
+}
+
+// C15-F1. t/1/u converges to a parameter, t/2/u keeps `threshold` constants, then
+// t itself converges: the merged u node holds >= threshold constants next to a
+// parameter child, so merely re-inserting t/1/u/1 (NormalizeURL does that) makes
+// the tree converge again — unreported.
+func witnessF1(threshold int) kase {
+	urls := []string{}
+	for i := 1; i <= threshold+1; i++ {
+		urls = append(urls, fmt.Sprintf("t.io/t/1/u/%d", i))
+	}
+	for i := 1; i <= threshold; i++ {
+		urls = append(urls, fmt.Sprintf("t.io/t/2/u/a%d", i))
+	}
+	for i := 3; i <= threshold; i++ {
+		urls = append(urls, fmt.Sprintf("t.io/t/%d/x", i))
+	}
+	urls = append(urls, fmt.Sprintf("t.io/t/%d/x", threshold+1))
+	return witnessCase(threshold, len(urls)-1, urls)
+}
+
+// C15-F2. users/0/orders converges to a parameter (orders 0,1,2 are filed under
+// it), users/2/orders/0 stays constant, then users converges: the merged orders
+// node has the constant child 0 next to the parameter child. A single batch files
+// users/0/orders/0 under .../orders/0, two batches leave it under .../orders/{_param_2}.
+func witnessF2(threshold int) kase {
+	urls := []string{}
+	for k := 1; k < threshold; k++ {
+		urls = append(urls, fmt.Sprintf("api.com/users/%d/orders/0", k))
+	}
+	for j := 0; j <= threshold; j++ {
+		urls = append(urls, fmt.Sprintf("api.com/users/0/orders/%d", j))
+	}
+	urls = append(urls, "api.com/users/me")
+	return witnessCase(threshold, len(urls)-1, urls)
+}
+
+func runWitness(t *testing.T, id string, cases ...kase) {
+	r := ev.New(t, "C15")
+	dir := scratchDir(t)
+	for _, c := range cases {
+		r.Case()
+		o := evaluate(c, dir)
+		if o.outside != nil {
+			t.Fatalf("VERIF-INFRA: witness outside the domain: %v", o.outside)
+		}
+		classify(r, c, o)
+		present := false
+		for _, a := range o.attributed {
+			present = present || a.id == id
+			t.Logf("threshold %d: %s present: %s", c.Threshold, a.id, a.msg)
+		}
+		if present {
+			r.NonTrivial(ev.JSON(c), func() any {
+				urls := []string{}
+				for _, x := range c.Recs {
+					urls = append(urls, x.U)
+				}
+				return map[string]any{"threshold": c.Threshold, "cut": c.CutsA, "urls": urls}
+			})
+		} else if o.violation == nil {
+			t.Logf("threshold %d: %s is absent on this tree (batch-invariant)", c.Threshold, id)
+		}
+		judge(t, r, c, o) // fails iff the defect is present but not listed, or anything else is wrong
+	}
+}
+
+func TestWitnessF1SilentConvergence(t *testing.T) {
+	runWitness(t, "C15-F1", witnessF1(2), witnessF1(productionThreshold))
+}
+
+func TestWitnessF2ConstantBesideParameter(t *testing.T) {
+	runWitness(t, "C15-F2", witnessF2(2), witnessF2(productionThreshold))
 }
